@@ -78,15 +78,72 @@ def reprC (p : Nat) : Ty → Option (Nat × Nat)
   | .u32 | .s32 | .f32 => some (4, 4)
   | .u64 | .s64 | .f64 => some (8, 8)
   | .flist e n => (reprC p e).map fun (sz, al) => (n * sz, al)
-  | .record fs => (reprCFields p fs 0 1).map fun (cur, al) => (alignTo cur al, al)
+  | .record fs => (reprCFields p fs 0).map fun (cur, al) => (alignTo cur al, al)
   | _ => none
-/-- C struct layout: running end offset and maximal alignment -/
-def reprCFields (p : Nat) : List Ty → Nat → Nat → Option (Nat × Nat)
-  | [], cur, al => some (cur, al)
-  | t :: ts, cur, al =>
+/-- C struct layout of the remaining fields placed from offset `cur`: (end offset, max alignment) -/
+def reprCFields (p : Nat) : List Ty → Nat → Option (Nat × Nat)
+  | [], cur => some (cur, 1)
+  | t :: ts, cur =>
       match reprC p t with
-      | some (sz, a) => reprCFields p ts (alignTo cur a + sz) (Nat.max al a)
+      | some (sz, a) => (reprCFields p ts (alignTo cur a + sz)).map fun (e, al) => (e, Nat.max a al)
       | none => none
+end
+
+/-! ### `FlagsLift` as rendered by the Rust backend (crates/rust/src/bindgen.rs)
+
+`Name::empty() | Name::from_bits_retain(((op_i as REPR) << 32*i) as _) | …` where each `op_i` is an
+`i32` and `REPR` is `u8/u16/u32/u64/u128`: the cast of a *signed* 32-bit operand to a wider unsigned
+type sign-extends. -/
+
+/-- width in bits of `RustFlagsRepr` -/
+def flagsReprBits (n : Nat) : Nat :=
+  if n ≤ 8 then 8 else if n ≤ 16 then 16 else if n ≤ 32 then 32 else if n ≤ 64 then 64 else 128
+
+/-- `(w as i32) as uN` for a 32-bit pattern `w` -/
+def castI32 (bits : Nat) (w : Nat) : Nat :=
+  let w := w % 2 ^ 32
+  if bits ≤ 32 then w % 2 ^ bits
+  else if w < 2 ^ 31 then w else w + (2 ^ bits - 2 ^ 32)
+
+/-- the OR of the shifted words, in the representation type -/
+def rustFlagsBits (bits : Nat) : List Nat → Nat → Nat
+  | [], _ => 0
+  | w :: ws, i => ((castI32 bits w * 2 ^ (32 * i)) % 2 ^ bits) ||| rustFlagsBits bits ws (i + 1)
+
+/-- the flags value the generated code produces from the core words -/
+def flagsLiftRust (n : Nat) (ws : List Nat) : List Bool :=
+  (List.range n).map fun i => (rustFlagsBits (flagsReprBits n) ws 0).testBit i
+
+mutual
+/-- what the Rust code observes when the host sends `v : t` (host → guest direction): the identity
+except for the `FlagsLift` rendering above -/
+def rustObserve : Ty → Val → Val
+  | .flags n, .flags bs =>
+      .flags (flagsLiftRust n ((List.range (flagsRepr n).count).map fun w => Spec.flagsWord bs w))
+  | .list e, .list vs => .list (rustObserveAll e vs)
+  | .flist e _, .list vs => .list (rustObserveAll e vs)
+  | .map k v, .list vs => .list (rustObserveEntries k v vs)
+  | .record fs, .record vs => .record (rustObserveFields fs vs)
+  | .tuple fs, .record vs => .record (rustObserveFields fs vs)
+  | .variant cs, .variant i pv => .variant i (match cs[i]? with
+      | some c => rustObserveOpt c pv
+      | none => pv)
+  | .option t, .variant i (some v) => .variant i (some (rustObserve t v))
+  | .result a _, .variant 0 pv => .variant 0 (rustObserveOpt a pv)
+  | .result _ b, .variant i pv => .variant i (rustObserveOpt b pv)
+  | _, v => v
+def rustObserveAll : Ty → List Val → List Val
+  | _, [] => []
+  | t, v :: vs => rustObserve t v :: rustObserveAll t vs
+def rustObserveEntries : Ty → Ty → List Val → List Val
+  | k, v, .record [x, y] :: vs => .record [rustObserve k x, rustObserve v y] :: rustObserveEntries k v vs
+  | _, _, vs => vs
+def rustObserveFields : List Ty → List Val → List Val
+  | t :: ts, v :: vs => rustObserve t v :: rustObserveFields ts vs
+  | _, vs => vs
+def rustObserveOpt : Option Ty → Option Val → Option Val
+  | some t, some v => some (rustObserve t v)
+  | _, pv => pv
 end
 
 /-! ### the cleanup the generated `cabi_post_*` performs (model of the code: `Gen.postReturn` run in
